@@ -93,13 +93,16 @@ pub trait BinaryOutput {
     }
 
     fn write_compressed(&mut self, bytes: &[u8], opts: Compression) -> Result<()> {
+        // the frame stores both lengths as u32
+        let uncompressed_len: u32 = bytes.len().try_into()?;
         let mut deflater = DeflateEncoder::new(bytes, opts);
         let mut compressed = Vec::new();
         deflater
             .read_to_end(&mut compressed)
             .map_err(|err| Error::CompressionFailure(format!("{err}")))?;
-        self.write_var_u32(bytes.len() as u32);
-        self.write_var_u32(compressed.len() as u32);
+        let compressed_len: u32 = compressed.len().try_into()?;
+        self.write_var_u32(uncompressed_len);
+        self.write_var_u32(compressed_len);
         self.write_bytes(&compressed);
         Ok(())
     }
